@@ -167,3 +167,18 @@ PROPS['C19'] = dict(
     technique='property-based testing (rapidcheck) with a binary128 polygon-clipping oracle; exhaustive coarse resolutions and icosahedron-edge bands',
     assumptions=['face numbering constants are specification', 'undecided band 1e-9..1e-6 of the cell area'],
 )
+
+PROPS['C10'] = dict(
+    src='props/C10.cpp', variants=['fast', 'asan'], level='exploration',
+    rule=('origin cells from the stress mixture with all geometric neighbours, distance-2 cells and a random far cell; 64-bit edge candidates (valid origins x direction 0..7, wrong mode, '
+          'damaged origins, pentagon origins with direction 1, bit flips, raw); complete strata: all cells of res 0..3 (4) as origins, all pentagons of all res x 16 modes x 8 direction values, '
+          'pentagon neighbourhoods as origins. non-trivial = origin or a neighbour is a pentagon / has a distortion vertex, or a candidate with mode 2; distinct by (kind, index, partner)'),
+    quick=dict(cases={'fast': 120_000, 'asan': 10_000}, enum={'fast': 8}),
+    thorough=dict(cases={'fast': 4_000_000, 'asan': 200_000}, enum={'fast': 16}),
+    strata=dict(quick=['all cells res 0..3 as origins', '12 pentagons x 16 res x 16 modes x 8 directions', 'pentagon k=1 disks as origins'], thorough=['all cells res 0..4 as origins']),
+    level_text=('encode/decode round trips for every geometric neighbour pair, originToDirectedEdges = exactly those edges, E_NOT_NEIGHBORS elsewhere, isValidDirectedEdge against the documented form in both directions, '
+                'directedEdgeToBoundary = the C08 shared stretch (1e-12 rad) and the reverse of the opposite edge, edgeLength* = binary128 arc length'),
+    level_note='trusted: geometric neighbour probes and shared-run matching (engine/topo.hpp), engine/h3ref.hpp edge predicate',
+    technique='property-based testing (rapidcheck): round trip + reference predicate + binary128 geometric oracle',
+    assumptions=['edge boundary follows the origin cell\'s counter-clockwise boundary order'],
+)
